@@ -47,6 +47,8 @@ def distance_to_similarity(D, r=None, a=None, method='exponential', return_param
         if r is None:
             if cover_quantile is False:
                 r = np.max(D)
+                if r == 0:
+                    r = 1  # all distances are zero
             else:
                 r = -np.quantile(D, cover_quantile) / np.log(cover_quantile_target)
         S = np.exp(-D / r)
@@ -54,6 +56,8 @@ def distance_to_similarity(D, r=None, a=None, method='exponential', return_param
         if r is None:
             if cover_quantile is False:
                 r = np.max(D)
+                if r == 0:
+                    r = 1  # all distances are zero
             else:
                 r = np.sqrt(-np.quantile(D, cover_quantile) ** 2 / np.log(cover_quantile_target))
         S = np.exp(-np.power(D, 2) / r**2)
@@ -69,6 +73,8 @@ def distance_to_similarity(D, r=None, a=None, method='exponential', return_param
     elif method == 'reverse':
         if r is None:
             r = np.min(D) + np.max(D)
+            if r == 0:
+                r = 1  # all distances are zero
         S = (r - D) / r
     else:
         raise ValueError("method={} is not supported".format(method))
@@ -155,6 +161,8 @@ def squash(X, r=None, base=None, x0=None, method="logistic", return_params=False
         if r is None:
             if cover_quantile is False:
                 r = x0 / 6
+                if r == 0:
+                    r = 1  # midpoint zero: no scale can be derived from it
             else:
                 r = -(np.quantile(X, cover_quantile)-x0) / np.log(1/cover_quantile_target-1)
         if base is None:
